@@ -318,6 +318,22 @@ def judge(cfg, method, aw, classes, stats=None):
         return ("%s:not-pure" % name,
                 "%s gives a different answer after loss/diff_loss/diff2Loss were evaluated on the same object: first %r, then %r"
                 % (name, list(vals)[:3], (list(vals2)[:3] if not err2 else err2)))
+    # what a kernel hands out belongs to the caller: scaling the returned arrays in place (h *= J**2 in a Gauss-Newton step)
+    # must not change any later answer
+    outs = []
+    for m2 in ("diff2Loss", "diff_loss", "loss"):
+        try:
+            r = getattr(obj, m2)(yhat, apply_weighting=aw)
+            if isinstance(r, np.ndarray) and r.flags.writeable:
+                r *= 3.0
+                r += 1.0
+        except Exception:                      # noqa: BLE001
+            pass
+    vals5, shp5, err5 = call(obj, method, yhat, aw)
+    if err5 or tuple(shp5) != tuple(shp) or any((a != b) and not (a != a and b != b) for a, b in zip(vals, vals5)):
+        return ("%s:returned-array-aliased" % name,
+                "%s gives a different answer after the arrays returned by loss/diff_loss/diff2Loss were modified in place by the "
+                "caller: first %r, then %r" % (name, list(vals)[:3], (list(vals5)[:3] if not err5 else err5)))
     # ... and of the CONTENTS of the prediction, not of the array object: the same buffer updated in place (what an
     # optimiser loop does) must give what a fresh kernel gives on the new contents
     yhat_new = np.asarray(yhat) * 1.0625 + 0.03125
